@@ -471,6 +471,10 @@ def copy_only_report(cls, frame_fields):
 
             def cond_reads(test):
                 bad = []
+                # ``self.f is None`` / ``is not None``: presence of an optional part; enumerated by the configurations
+                if isinstance(test, ast.Compare) and len(test.ops) == 1 and isinstance(test.ops[0], (ast.Is, ast.IsNot)) \
+                        and isinstance(test.comparators[0], ast.Constant) and test.comparators[0].value is None:
+                    return bad
                 for n in ast.walk(test):
                     if isinstance(n, ast.Attribute):
                         p = _path(n, {})
